@@ -133,6 +133,76 @@ Definition gc_fixed := gc_gen true true.     (* program.go now: Concat is an ali
 (* NOW: what /repo contains at present (commits d266b2f, f274b03) *)
 Definition gc_now := gc_fixed.
 
+(* ---- Program.GC with the visited set of aliasLive written out
+   (program.go: `aliasLive(id, seen)`, called with a fresh map per queried
+   input, and the shortcut `len(aliases[in.ID]) == 0`).  [shared] = true is the
+   variant in which ONE visited set is cleared per step and shared by the
+   queries of all inputs of the step (not the code: kept as a refuted
+   variant, see StreamProof.v). *)
+Fixpoint alias_live_seen (fuel : nat) (al : N -> list N) (set : list N) (id : N) (seen : list N)
+  : bool * list N :=
+  match fuel with
+  | O => (false, seen)
+  | S f =>
+      if mem id seen then (false, seen)
+      else
+        (fix loop (l : list N) (seen : list N) : bool * list N :=
+           match l with
+           | [] => (false, seen)
+           | a :: t =>
+               if mem a set then (true, seen)
+               else
+                 let '(r, seen') := alias_live_seen f al set a seen in
+                 if r then (true, seen') else loop t seen'
+           end) (al id) (id :: seen)
+  end.
+
+Fixpoint gc_ins_seen (shared : bool) (fuel : nat) (al : N -> list N) (ins : list val) (set seen : list N)
+  : list instr * list N :=
+  match ins with
+  | [] => ([], set)
+  | i :: rest =>
+      if vconst i then gc_ins_seen shared fuel al rest set seen
+      else
+        let '(g, seen1) :=
+          if mem (vid i) set then ([], seen)
+          else
+            match al (vid i) with
+            | [] => ([gc_instr i], seen)
+            | _ =>
+                let '(lv, seen') := alias_live_seen fuel al set (vid i) (if shared then seen else []) in
+                (if lv then [] else [gc_instr i], if shared then seen' else seen)
+            end in
+        let '(gs, set') := gc_ins_seen shared fuel al rest (vid i :: set) seen1 in
+        (g ++ gs, set')
+  end.
+
+Fixpoint gc_back_seen (shared : bool) (fuel : nat) (al : N -> list N) (rsteps : list instr) (set : list N)
+  : list instr :=
+  match rsteps with
+  | [] => []
+  | s :: rest =>
+      (* clear(seen) at the top of the step (shared variant); fresh per query otherwise *)
+      let '(gs, set1) := gc_ins_seen shared fuel al (iin s) set [] in
+      let set2 := match iout s with Some o => remove (vid o) set1 | None => set1 end in
+      gs ++ s :: gc_back_seen shared fuel al rest set2
+  end.
+
+Definition gc_gen_seen (shared : bool) (steps : list instr) : option (list instr) :=
+  match rev steps with
+  | [] => None
+  | last :: _ =>
+      match iop last with
+      | ORet =>
+          let al := aliases_of true steps in
+          Some (rev (gc_back_seen shared (S (S (length steps))) al (rev steps) (map vid (iin last))))
+      | _ => None
+      end
+  end.
+
+Definition gc_visited := gc_gen_seen false.       (* program.go as it is, visited set and all *)
+Definition gc_shared_seen := gc_gen_seen true.    (* one visited set per step: refuted *)
+
 (* ------------------------------------------------------------------ *)
 (** * WireAllocator (compiler/ssa/wire_allocator.go), ids only
 
